@@ -426,7 +426,7 @@ struct MaterialData {
 
     #[br(count = file_header.additional_data_size)]
     #[br(pad_size_to = 4)]
-    #[br(map = |x: Vec<u8>| u32::from_le_bytes(x[0..4].try_into().unwrap()))]
+    #[br(try_map = |x: Vec<u8>| <[u8; 4]>::try_from(x.get(0..4).unwrap_or_default()).map(u32::from_le_bytes))]
     table_flags: u32,
 
     #[br(calc = (table_flags & 0x4) != 0)]
